@@ -4,10 +4,18 @@ From NG Require Import VM.Model Codec.BigintProofs.
 Open Scope Z_scope.
 #[global] Opaque clone_fuel struct_fuel egcd_fuel.
 
+(* what a Pointer item has to satisfy is left open (a class parameter): trivial for the size limits (Limits.v), "points
+   at an instruction boundary" for the soundness of the static script check (StaticProofs.v) *)
+Class PtrSpec := ptr_ok : Z -> N -> Prop.
+
+Section WithPtr.
+Context {PS : PtrSpec}.
+
 Definition item_ok (it : item) : Prop :=
   match it with
   | IInt z => in_int256 z = true
   | IBytes bs => zlen bs <= MaxItemSize
+  | IPtr pos sid => ptr_ok pos sid
   | _ => True
   end.
 Definition cell_ok (c : cell) : Prop :=
@@ -176,3 +184,5 @@ Proof.
   unfold msg_out_of_range, zlen. rewrite !app_length. pose proof (dec_bytes_len i).
   cbn [length]. unfold MaxItemSize. lia.
 Qed.
+
+End WithPtr.
